@@ -5,12 +5,34 @@ from .. import core, wfgen
 class C13(core.Prop):
     id = "C13"
     drivers = [wfgen.DRIVER]
-    sizes = {"quick": 1000, "thorough": 40000}
     max_workers = 6
     technique = ("property-based testing (Hypothesis): random DAGs built through the API and through the JSON / DAX loaders, run on a "
                  "sharing-free platform; start and completion signals compared with the dates the dependency rule implies (closed forms)")
-    rule = ""
-    assumptions = []
+    sizes = {"quick": 800, "thorough": 40000}
+    rule = ("Random DAGs of 1-30 activities (execs, host-to-host comms Comm::sendto_init, disk I/Os; 0-3 predecessors taken among the earlier "
+            "nodes, often a common hub so that fan-out and joins occur; amounts include 0) on a sharing-free platform (2-4 hosts of 64 cores, "
+            "one FATPIPE link per pair, one disk per I/O, CM02 without cross-traffic / TCP window) so that every duration is a closed form.  Built "
+            "(a) through the API in four ways: from the main thread before Engine::run, from an actor (Exec::init / this_actor::exec_init, "
+            "completions collected with ActivitySet::wait_any like examples/cpp/exec-dependent), with Engine::track_vetoed_activities + a "
+            "scheduling loop (examples/cpp/dag-scheduling), with assignment from the on_veto callback; each node is assigned at creation, before "
+            "start(), after a vetoed start(), at a later date by another actor (quarters of a second: coinciding dates are frequent), or at its veto; "
+            "roots are started at build time or later, other nodes optionally get an early (vetoed) start(); (b) as a wfformat JSON file "
+            "(create_DAG_from_json; tasks in topological or shuffled order, 'machine' given or not) and (c) as a DAX file (create_DAG_from_DAX; jobs, "
+            "files with 0-2 producers and 0-3 consumers, control dependencies), both assigned after loading at date 0 or later.  Oracle, from the "
+            "on_start / on_completion / on_veto signals: the loaders build exactly the described graph (names, kinds, amounts, dependencies, "
+            "pre-assignment); every activity starts once and completes once; no start before the completion of a predecessor or before the "
+            "assignment; start date == max(latest completion of the predecessors, assignment date, date of the first start request for a root) "
+            "within 2 ulp; completion - start == closed form; get_start_time / get_finish_time agree with the signals.  Non-trivial: a node with "
+            ">= 2 predecessors completing at different dates, or assigned after its predecessors completed.  DOT is skipped (no graphviz in this build).")
+    assumptions = ["a communication is started by its own assignment (Comm::set_source / set_destination call start()): the scripts never call "
+                   "start() on a root communication that is already fully assigned (Activity::start() has no guard: a second start restarts the "
+                   "activity, which crashes at completion) and only assign a communication after its dependencies are declared",
+                   "activities created by an actor report their completion when that actor waits for them: the builder actor waits with wait_any",
+                   "disk I/O durations are accepted within half a byte per time advance that cuts the I/O (DiskS19Model::update_actions_state moves "
+                   "an I/O forward by rint(rate * delta) bytes per step); other durations within 1e-9 relative + 1e-9 s",
+                   "JSON files in which the single parent of a transfer is a compute task listed earlier without 'machine' are not generated "
+                   "(the loader reads Exec::get_host() of an unassigned execution: undefined)",
+                   "no failures, no cancellation, no parallel tasks"]
 
     def strategy(self, tier):
         return wfgen.cases()
